@@ -21,7 +21,7 @@ RULE = ("Stateful peer.  (a) modes: for every mode m of get_operation_modes(True
         "(reference decoder, schedule-type aware) to an all-day, every-day, enabled ECO-MODE typed group with power "
         "-p / +p and SoC == s (both emulated modes; an 8-byte group has no SoC field, so any s != 100 is reported - "
         "these SoC deviations are listed known findings), and groups 2-4 have a non-negative on/off byte.  A third of the mode cases answer one request of the setter's sequence with a Modbus exception, another third lose one request together with its retransmission: the setter must raise or really have set everything.  A setter that raises makes the case vacuous (counted).  (b) export "
-        "limit: set/get for all values 0..65534 (thorough; stride in quick) on ET, DT (three-/single-phase) and ES; "
+        "limit: set/get for all values 0..65535 (thorough; stride in quick; 65535 reads back as 0 - a listed known finding) on ET, DT (three-/single-phase) and ES; "
         "(c) DoD: all 0..100 on ET and ES.  Non-trivial: every case; distinct: (config, mode, prior kind, p, s).")
 ASSUMPTIONS = [
     "ES device model: 0359 sets the work mode word of the settings block (offset 66), 0335 the export limit "
@@ -333,9 +333,9 @@ def run_export(case):
     n = {"rt": 0}
     stride = case["stride"]
     base = case["chunk"] * 256 * stride
-    vals = [v for v in (base + i * stride + (case["seed"] + i) % stride for i in range(256)) if v <= 65534]
+    vals = [v for v in (base + i * stride + (case["seed"] + i) % stride for i in range(256)) if v <= 65535]
     if case["chunk"] == 0:
-        vals = sorted(set(vals + [0, 1, 2, 255, 256, 32767, 32768, 65534, 10000]))
+        vals = sorted(set(vals + [0, 1, 2, 255, 256, 32767, 32768, 65534, 10000, 65535]))
     sigs = []
 
     async def main():
@@ -351,6 +351,11 @@ def run_export(case):
             n["rt"] += 1
             sigs.append((fam, serial, v))
             if r2["outcome"] != "result" or r2["value"] != v:
+                if v == 65535 and r2["outcome"] == "result" and r2["value"] == 0:
+                    # the all-ones word is the reading's 'no value' sentinel (C17's known finding, seen through the getter)
+                    violations.append(viol(f"C19:export:{fam}:all-ones-reads-as-0", f"{fam} {serial or ''} "
+                                           f"set_grid_export_limit(65535) then get_grid_export_limit() -> 0"))
+                    continue
                 violations.append(viol(f"C19:export:{fam}", f"{fam} {serial or ''} set_grid_export_limit({v}) then "
                                        f"get_grid_export_limit() -> {r2.get('value', r2.get('exc'))!r}"))
                 return
